@@ -4,6 +4,7 @@ import (
 	"errors"
 	"fmt"
 
+	"seehuhn.de/go/sfnt/opentype/gtab"
 	"seehuhn.de/go/sfnt/verifharness/vlib"
 )
 
@@ -14,6 +15,7 @@ func Gen(run *vlib.Run, seed uint64, tier string) {
 	genCoverage(run, r.Fork("coverage"), tier)
 	genClassdef(run, r.Fork("classdef"), tier)
 	genLookupLists(run, r.Fork("lookuplist"), tier)
+	genSubtables(run, r.Fork("subtables"), tier)
 }
 
 func pairsOf(x vlib.Sx) ([]pair, error) {
@@ -147,6 +149,57 @@ func RunCase(line string) (impl, fail, sig string, err error) {
 		}
 		impl, fail = llRead(data, pos, ext)
 		return impl, fail, "c08-lookuplist-read", nil
+	case "vr-enc":
+		if len(items) != 3 {
+			return "", "", "", errors.New("vr-enc: want 2 arguments")
+		}
+		f, err := vlib.AsAtom(items[1])
+		if err != nil {
+			return "", "", "", err
+		}
+		v, err := vrOf(items[2])
+		if err != nil {
+			return "", "", "", err
+		}
+		impl, fail = vrEnc(f, v)
+		return impl, fail, "c08-valuerecord", nil
+	case "vr-read":
+		if len(items) != 3 {
+			return "", "", "", errors.New("vr-read: want 2 arguments")
+		}
+		f, err := vlib.AsInt(items[1])
+		if err != nil {
+			return "", "", "", err
+		}
+		data, err := vlib.AsBytes(items[2])
+		if err != nil {
+			return "", "", "", err
+		}
+		impl, fail = vrRead(f, data)
+		return impl, fail, "c08-valuerecord", nil
+	case "sub-enc":
+		if len(items) != 2 {
+			return "", "", "", errors.New("sub-enc: want 1 argument")
+		}
+		d, err := stDescOf(items[1])
+		if err != nil {
+			return "", "", "", err
+		}
+		impl, fail, _ = subEnc(d)
+		return impl, fail, "c08-subtable-" + d.kind, nil
+	case "sub-read":
+		if len(items) != 5 {
+			return "", "", "", errors.New("sub-read: want 4 arguments")
+		}
+		tbl, e1 := vlib.AsAtom(items[1])
+		lt, e2 := vlib.AsInt(items[2])
+		data, e3 := vlib.AsBytes(items[3])
+		pos, e4 := vlib.AsInt(items[4])
+		if e1 != nil || e2 != nil || e3 != nil || e4 != nil {
+			return "", "", "", errors.New("sub-read: bad arguments")
+		}
+		impl, fail, _ = subRead(tbl, lt, data, pos)
+		return impl, fail, "c08-subtable-read", nil
 	}
 	return "", "", "", fmt.Errorf("unknown case kind %q", kind)
 }
@@ -199,4 +252,84 @@ func llOf(x vlib.Sx) ([]llLookup, error) {
 		}
 	}
 	return out, nil
+}
+
+func covRunsOf(x vlib.Sx) ([]pair, error) {
+	l, err := vlib.AsList(x)
+	if err != nil {
+		return nil, err
+	}
+	var ps []pair
+	for _, y := range l {
+		v, err := vlib.AsInts(y)
+		if err != nil || len(v) != 3 || v[2] < 0 || v[2] > 65536 {
+			return nil, errors.New("bad coverage run")
+		}
+		for k := 0; k < v[2]; k++ {
+			ps = append(ps, pair{v[0] + k, v[1] + k})
+		}
+	}
+	return ps, nil
+}
+
+func stDescOf(x vlib.Sx) (stDesc, error) {
+	f, err := vlib.AsList(x)
+	if err != nil || len(f) != 3 {
+		return stDesc{}, errors.New("bad subtable")
+	}
+	k, err := vlib.AsAtom(f[0])
+	if err != nil {
+		return stDesc{}, err
+	}
+	d := stDesc{kind: k}
+	if k == "gsub11" {
+		d.gl, err = vlib.AsInts(f[1])
+		if err != nil {
+			return d, err
+		}
+		d.delta, err = vlib.AsInt(f[2])
+		return d, err
+	}
+	d.cov, err = covRunsOf(f[1])
+	if err != nil {
+		return d, err
+	}
+	switch k {
+	case "gsub12":
+		d.nums, err = vlib.AsInts(f[2])
+	case "gsub21", "gsub31":
+		var l []vlib.Sx
+		l, err = vlib.AsList(f[2])
+		if err != nil {
+			return d, err
+		}
+		d.seqs = make([][]int, len(l))
+		for i, y := range l {
+			d.seqs[i], err = vlib.AsInts(y)
+			if err != nil {
+				return d, err
+			}
+			if d.seqs[i] == nil {
+				d.seqs[i] = []int{}
+			}
+		}
+	case "gpos11":
+		d.vr, err = vrOf(f[2])
+	case "gpos12":
+		var l []vlib.Sx
+		l, err = vlib.AsList(f[2])
+		if err != nil {
+			return d, err
+		}
+		d.vrs = make([]*gtab.GposValueRecord, len(l))
+		for i, y := range l {
+			d.vrs[i], err = vrOf(y)
+			if err != nil {
+				return d, err
+			}
+		}
+	default:
+		return d, errors.New("unknown subtable kind")
+	}
+	return d, err
 }
